@@ -20,6 +20,9 @@ type SpecCtx struct {
 	// heapParams, when non-nil, makes heap accesses go through formal
 	// parameters of a recursive spec function (see specfun.go).
 	hp *heapParams
+	// base is the allocation counter at the entry of the contract's function
+	// (zero Term: the verified function's own entry, vc.alloc0).
+	base Term
 }
 
 func (sc *SpecCtx) with(vars map[string]Val) *SpecCtx {
@@ -684,17 +687,17 @@ func (sc *SpecCtx) call(x *SX) Val {
 		need(1)
 		v := sc.eval(args[0])
 		if v.T.Sort == SSlice {
-			return Val{Ty: specBool, T: or(eq(sArr(v.T), intLit(0)), ge(sArr(v.T), vc.alloc0))}
+			return Val{Ty: specBool, T: or(eq(sArr(v.T), intLit(0)), ge(sArr(v.T), sc.allocBase()))}
 		}
-		return Val{Ty: specBool, T: ge(v.T, vc.alloc0)}
+		return Val{Ty: specBool, T: ge(v.T, sc.allocBase())}
 	case "allocated":
 		// allocated(x): x's reference existed at function entry
 		need(1)
 		v := sc.eval(args[0])
 		if v.T.Sort == SSlice {
-			return Val{Ty: specBool, T: lt(sArr(v.T), vc.alloc0)}
+			return Val{Ty: specBool, T: lt(sArr(v.T), sc.allocBase())}
 		}
-		return Val{Ty: specBool, T: lt(v.T, vc.alloc0)}
+		return Val{Ty: specBool, T: lt(v.T, sc.allocBase())}
 	case "sameArray":
 		need(2)
 		a, b := sc.eval(args[0]), sc.eval(args[1])
@@ -829,6 +832,15 @@ func (sc *SpecCtx) unchangedOld(x *SX, arg *SX) Val {
 	was := vc.heapGet(sc.old, comp, srt)
 	vc.ctr["qv"]++
 	r := Term{fmt.Sprintf("q_r!%d", vc.ctr["qv"]), SInt}
-	body := implies(and(le(intLit(0), r), lt(r, vc.alloc0)), eq(sel(now, r), sel(was, r)))
+	body := implies(and(le(intLit(0), r), lt(r, sc.allocBase())), eq(sel(now, r), sel(was, r)))
 	return Val{Ty: specBool, T: Term{fmt.Sprintf("(forall ((%s Int)) %s)", r.S, body.S), SBool}}
+}
+
+// allocBase is the allocation counter at the entry of the function whose contract
+// is being evaluated: references below it existed before the call.
+func (sc *SpecCtx) allocBase() Term {
+	if sc.base.S != "" {
+		return sc.base
+	}
+	return sc.vc.alloc0
 }
